@@ -273,6 +273,85 @@ def job_dwarf(payload):
     return out
 
 
+OUTLIVE_PRODUCERS = ['{1 add}', 'let A := 7; {A add}', 'let A := "s"; let B := [1, 2]; {drop A B}', '{drop {1}}', '[{1 add}, {2 add}]', '{dup add}',
+                     'let F := {3 add}; {F 1 add}', 'let A := [1, [2, "x"]]; {drop A elem}', '{(|X| X X add)}', '{[|X| X, X]}', '"str" [1, [2]] {dup}',
+                     'let A := 1; let B := {A add}; {B B}', '{if (> 0) then (1 sub) else ()}', '{(1 add, 2 add)}', '{"%s%s"}', '[{1 add}] elem',
+                     'let A := {5}; [{A}, 7, "x"]', '{{{1 add}}}']
+OUTLIVE_CONSUMERS = ['2 swap apply', 'dup', '(|F| 1 F)', '(|F| [1 F, 2 F])', '2 swap dup rot swap apply swap apply', '(|F| {F})', '(|F| 3 {F} apply)', 'elem', '[elem]',
+                     '(|S| S elem (|F| 4 F))', '2 swap apply apply', '2 swap apply apply apply', '(|F| 0 F F F)', '(|F| 0 (F ?(type == T_CONST) (< 4))*)', 'type', '"%s"', 'dup ?eq', '(|F| [F, F] elem)', '1 swap apply']
+
+
+def job_outlive(payload):
+    """Values that outlive the query that made them (the command line does this with every --a argument): closures with and without
+    captured values, closures inside sequences and inside other closures, are taken from a result of a query that is then destroyed,
+    and handed -- once, and again from a kept copy -- to other queries that apply, copy, compare, format and re-wrap them."""
+    seed, count = payload
+    d = common.get_driver()
+    rng = random.Random(seed)
+    out = {"outlive_runs": 0, "outlive_applied": 0, "bad": []}
+    for i in range(count):
+        p, c = rng.choice(OUTLIVE_PRODUCERS), rng.choice(OUTLIVE_CONSUMERS)
+        t = "%s  ->  %s" % (p, c)
+        try:
+            r = d.run(c, inp="q:" + common.hx(p), fuel=200000, max=200)
+            out["outlive_runs"] += 1
+            if r["st"] == "done" and r["res"]:
+                out["outlive_applied"] += 1
+            if r["evbad"]:
+                out["bad"].append(("api-contract", dict(text=t, ev=r["ev"])))
+            k = d.req("keep id=ol%d in=q:%s" % (i % 3, common.hx(p)))
+            if k["st"] == "ok":
+                for c2 in (c, rng.choice(OUTLIVE_CONSUMERS)):
+                    r2 = d.run(c2, inp="v:ol%d" % (i % 3), fuel=200000, max=200)
+                    out["outlive_runs"] += 1
+                    if r2["evbad"]:
+                        out["bad"].append(("api-contract", dict(text="%s (kept)  ->  %s" % (p, c2), ev=r2["ev"])))
+                # what a consumer yields is itself kept and consumed again: a value made by two queries, both gone
+                k2 = d.req("keep id=om in=v:ol%d,q:%s" % (i % 3, common.hx(rng.choice(['dup', '(|F| {F})', '(|F| [F, F])', '(|F| let A := F; {A})']))))
+                if k2["st"] == "ok":
+                    r3 = d.run(rng.choice(OUTLIVE_CONSUMERS), inp="v:om", fuel=200000, max=200)
+                    out["outlive_runs"] += 1
+        except common.DriverCrash as ex:
+            out["bad"].append(("crash:" + getattr(ex, "key", ex.kind), dict(text=t, report=ex.report[-3000:])))
+        except common.DriverTimeout as ex:
+            out["bad"].append(("hang", dict(text=t)))
+    out["bad"] = out["bad"][:40]
+    return out
+
+
+def job_hetero(payload):
+    """Sequences whose elements are of every type, lined up against each other by the haystack/needle words, the comparisons,
+    `add` and the formatter: every pair of element types meets in value::cmp (where 'not my type' has to be an answer, not a cast)."""
+    seed, count = payload
+    d = common.get_driver()
+    rng = random.Random(seed)
+    out = {"hetero_runs": 0, "bad": []}
+    elems = ['1', '-5', '0xff', '"a"', '"abc"', '""', '[]', '[1]', '["a"]', '[[1], "a"]', '{1}', '{dup}', 'true', 'T_STR', 'T_CONST', '"a\\x00b"', '[{1}]']
+
+    def sq():
+        return "[" + ", ".join(rng.choice(elems) for _ in range(rng.choice([0, 1, 1, 2, 2, 3, 4]))) + "]"
+    words = ["?find", "!find", "?starts", "!starts", "?ends", "!ends", "?eq", "!eq", "?lt", "?gt", "?le", "?ge", "add", "== ", "< ", '"%s %s"', "?match", "swap elem swap elem ?lt"]
+    for i in range(count):
+        a, b = sq(), sq()
+        if rng.random() < 0.3:
+            a = rng.choice(elems)
+        if rng.random() < 0.2:
+            b = rng.choice(elems)
+        w = rng.choice(words)
+        t = "%s %s %s" % (a, b, w) if not w.endswith(" ") else "%s (%s%s)" % (a, w, b)
+        try:
+            r = d.run(t, fuel=200000, max=200)
+            out["hetero_runs"] += 1
+            if r["evbad"]:
+                out["bad"].append(("api-contract", dict(text=t, ev=r["ev"])))
+        except common.DriverCrash as ex:
+            out["bad"].append(("crash:" + getattr(ex, "key", ex.kind), dict(text=t, report=ex.report[-3000:])))
+        except common.DriverTimeout as ex:
+            out["bad"].append(("hang", dict(text=t)))
+    out["bad"] = out["bad"][:40]
+    return out
+
+
 def job_shallow(payload):
     """Every word of the vocabulary, and the back-tick capture forms, on stacks that are too shallow, exactly deep enough
     and one deeper: the boundary where 'not enough values' has to be an error and never an out-of-bounds access."""
@@ -420,6 +499,8 @@ def run(chk):
     wl += ["`" * k + "[" + b + "]" for k in range(1, 7) for b in ("", "1", "dup", "1, 2", "drop")]
     wl += ["(|A B C| A)", "(|A B C D E| A)", "let A B C := ;", "[|A B| A]", "?(|A B C| A)", "{} apply", "rot rot rot", "over over", "swap drop drop"]
     zcheck.consume(chk, pool.map(job_shallow, [(wl[i:i + 25],) for i in range(0, len(wl), 25)]), tot, ctx, samples, "C13 shallow")
+    zcheck.consume(chk, pool.map(job_hetero, [(chk.seed * 29 + i, 150) for i in range(16 if quick else 400)]), tot, ctx, samples, "C13 hetero")
+    zcheck.consume(chk, pool.map(job_outlive, [(chk.seed * 23 + i, 40) for i in range(16 if quick else 400)]), tot, ctx, samples, "C13 outlive")
     hs = pool.hook_stats()
     pool.finish()
     vg = 0
@@ -438,6 +519,8 @@ def run(chk):
         "mutated_queries": tot.get("mutants", 0), "rejected_queries": tot.get("rejected", 0), "accepted_queries_leak_checked": tot.get("accepted", 0),
         "dwarf_runs": tot.get("dw_runs", 0), "dwarf_files": [os.path.basename(f) for f in files],
         "leak_checks": tot.get("leakchecks", 0), "core_word_x_operand_runs_in_leak_checked_processes": tot.get("word_leak_runs", 0),
+        "runs_lining_up_elements_of_different_types": tot.get("hetero_runs", 0),
+        "runs_on_values_that_outlived_their_query": tot.get("outlive_runs", 0), "of_which_yielded": tot.get("outlive_applied", 0),
         "word_x_boundary_depth_runs": tot.get("shallow_runs", 0), "of_which_raised_cleanly": tot.get("shallow_errors", 0),
         "H1": {k: hs.get(k) for k in ("scon_new", "scon_del", "scon_con", "scon_des", "scon_get", "fuel_exhausted")},
         "state_types_seen": sorted((hs.get("state_types") or {}).keys()),
